@@ -568,6 +568,11 @@ impl EndpointConfig {
         &self.server_name
     }
 
+    #[cfg(bmwill_anemo_verif)]
+    pub(crate) fn verif_client_certificate(&self) -> Vec<u8> {
+        self.client_certificate.as_ref().to_vec()
+    }
+
     pub fn quinn_endpoint_config(&self) -> quinn::EndpointConfig {
         self.quinn_endpoint_config.clone()
     }
